@@ -79,6 +79,16 @@ fn gen_tree(p: &mut Pool, depth: usize) -> OptSpec {
     if p.rng.chance(1, 4) {
         let id = p.id();
         fields.push(Spec::wrap(W::Optional { catch: false }, id, a));
+    } else if p.rng.chance(1, 5) {
+        // `cmd.fallback(..)` / `cmd.fallback_with(..)`: a default when no command is given; a
+        // command that was entered still decides the outcome
+        let id = p.id();
+        let w = if p.rng.chance(1, 2) {
+            W::Fallback
+        } else {
+            W::FallbackWithOk
+        };
+        fields.push(Spec::wrap(w, id, a));
     } else {
         fields.push(a);
     }
